@@ -217,6 +217,14 @@ def bad_nested(x: int) -> int:
     return g(x)
 
 @guppy
+def bad_sig(x: "nosuchtype") -> int:
+    return 1
+
+@guppy
+def uses_bad_sig(x: int) -> int:
+    return bad_sig(x) + 1
+
+@guppy
 def bad_overwrite(x: int) -> int:
     def plain(n: int) -> int:
         if n > 0:
@@ -229,12 +237,12 @@ TARGETS = [
     "f", "plain", "one_tmp", "two_tmp", "three_tmp", "rec_nc", "rec_cap", "rec_cap2", "cap", "gen", "use_gen",
     "use_struct", "qbranch", "uses_f", "ct", "ct_q", "use_ct", "boom", "ct_badret", "use_boom", "cexpr",
     "bad_type", "bad_undef", "bad_lin", "bad_callee", "bad_two", "user_bad", "bad_nested", "bad_overwrite",
-    "gen2", "pyarr", "compr", "S", "P",
+    "gen2", "pyarr", "compr", "bad_sig", "uses_bad_sig", "S", "P",
 ]
 #: definitions the Lean session model is run on (functions; struct-related ones are real-engine-only)
 MODEL_TARGETS = [t for t in TARGETS if t not in ("S", "P", "use_struct")]
 FAILING = {"boom", "ct_badret", "use_boom", "cexpr", "bad_type", "bad_undef", "bad_lin", "bad_callee",
-           "bad_two", "user_bad", "bad_nested", "bad_overwrite"}
+           "bad_two", "user_bad", "bad_nested", "bad_overwrite", "bad_sig", "uses_bad_sig"}
 
 _mod = None
 
@@ -359,6 +367,10 @@ class PeekCounter:
         self.n += 1
         return v
 
+    def reset(self) -> None:
+        """what `CompilationEngine.check` calls since the numbering is restarted per session"""
+        self.n = 0
+
 
 COUNTER: PeekCounter | None = None
 
@@ -453,6 +465,30 @@ def _static_deps():
     return info
 
 
+def _defid_position() -> int:
+    """next value of the session-global `DefId._ids` counter, read without drawing from it"""
+    import re
+    from guppylang_internals.definition.common import DefId
+    m = re.match(r"count\((\d+)", repr(DefId._ids))
+    if not m:  # not an itertools.count any more: fall back to drawing one id
+        return DefId.fresh().id
+    return int(m.group(1))
+
+
+def _nested_in_order(fd) -> list:
+    """nested function definitions of `fd` in the order `check_nested_func_def` meets them (pre-order)"""
+    import ast
+    out = []
+
+    def go(node):
+        for ch in ast.iter_child_nodes(node):
+            if isinstance(ch, ast.FunctionDef):
+                out.append(ch)
+            go(ch)
+    go(fd)
+    return out
+
+
 def calibrate() -> list[dict]:
     """T-obj: the abstract pool (one RawDef per MODEL_TARGETS entry) extracted from the real objects:
     per-definition `get_checked` on an empty cache gives tmps / rows / nested / ill-typedness;
@@ -477,7 +513,19 @@ def calibrate() -> list[dict]:
         raw = DEF_STORE.raw_defs[d.id]
         comptime = isinstance(raw, RawTracedFunctionDef)
         ENGINE.reset()
+        bad_sig = False
+        try:
+            ENGINE.get_parsed(d.id)
+        except GuppyError:
+            bad_sig = True  # the signature does not parse
+        ENGINE.reset()
+        if bad_sig:
+            out.append({"name": t, "deps": [name_id(x) for x in st[t]["deps"]], "ill": 0, "ct_call": 0,
+                        "nret": st[t]["nret"], "tmps": 0, "ctmps": 0, "rows": [], "nested": [], "comptime": int(comptime),
+                        "raises": 0, "bad_sig": 1})
+            continue
         b0 = ctr.n
+        ids0 = _defid_position()
         ill = False
         checked = None
         try:
@@ -485,6 +533,7 @@ def calibrate() -> list[dict]:
         except GuppyError:
             ill = True
         tmps = ctr.n - b0
+        reached = _defid_position() - ids0
         rows, nested = [], []
         if checked is not None and hasattr(checked, "cfg"):
             for c in _all_cfgs(checked.cfg):
@@ -493,17 +542,19 @@ def calibrate() -> list[dict]:
                 rec = nd.name in nd.cfg.live_before[nd.cfg.entry_bb]
                 nested.append([name_id(nd.name), 1 if rec else 0, len(nd.captured)])
         elif ill and not comptime:
-            # nested definitions of an ill-typed body: count them from the source
+            # nested definitions of an ill-typed body: only those whose check was REACHED before the failure
+            # (`check_nested_func_def` draws exactly one DefId each; e.g. an undefined name used by a nested function
+            # in the entry block is reported before the nested function is looked at), in program order, read off
+            # the source
             import ast
             fd = next(f for f in ast.parse(POOL_SRC).body if isinstance(f, ast.FunctionDef) and f.name == t)
-            for n in ast.walk(fd):
-                if isinstance(n, ast.FunctionDef) and n is not fd:
-                    rec = any(isinstance(x, ast.Name) and x.id == n.name for b in n.body for x in ast.walk(b))
-                    nested.append([name_id(n.name), 1 if rec else 0, 0])
+            for n in _nested_in_order(fd)[:max(0, reached)]:
+                rec = any(isinstance(x, ast.Name) and x.id == n.name for b in n.body for x in ast.walk(b))
+                nested.append([name_id(n.name), 1 if rec else 0, 0])
         ct_call = st[t]["ct_call"]
         out.append({"name": t, "deps": [name_id(x) for x in st[t]["deps"]], "ill": int(ill and not ct_call),
                     "ct_call": int(ct_call), "nret": st[t]["nret"], "tmps": tmps, "ctmps": 0, "rows": rows,
-                    "nested": nested, "comptime": int(comptime), "raises": 0})
+                    "nested": nested, "comptime": int(comptime), "raises": 0, "bad_sig": 0})
     ENGINE.reset()
     by = {o["name"]: o for o in out}
 
@@ -528,10 +579,12 @@ def calibrate() -> list[dict]:
             # names drawn by a whole successful `check` beyond the pool definitions involved belong to library
             # functions written in Guppy (Range.__next__ ...) that are re-checked in every session: attribute
             # them to this definition
-            b0 = ctr.n
+            # (measured from 0: `check` restarts the numbering since `fix: restart the numbering of temporary
+            # variables…`; on a tree without the restart starting from 0 is just as good)
+            ctr.n = b0 = 0
             if op_check(t)["kind"] == "ok":
                 o["tmps"] = (ctr.n - b0) - sum(by[x]["tmps"] for x in cl)
-            b0 = ctr.n
+            ctr.n = b0 = 0
             r = op_lower(t)
             total = ctr.n - b0
             if r["kind"] == "hugr":
@@ -570,7 +623,7 @@ def state_probe() -> dict:
             chk.append(f"{ids[did]}/{ins}/{ext}")
     rebound = [n for n in TARGETS if getattr(m, n, None) is not _orig().get(n)]
     return {"tmp": COUNTER.n if COUNTER else -1, "tracing": int(tracing_active()), "rebound": rebound,
-            "store": len(DEF_STORE.raw_defs), "checked": " ".join(chk)}
+            "store": len(DEF_STORE.raw_defs), "checked": " ".join(chk), "parsing": len(getattr(ENGINE, "parsing", ()))}
 
 
 def real_sorted_rows(name: str) -> list[list[int]] | None:
